@@ -341,7 +341,7 @@ fn check16(ctx: &mut Ctx, b: &[u8]) {
 pub fn run_c16(ctx: &mut Ctx) {
     let miri = ctx.miri;
     // exhaustive: all byte strings up to a length bound
-    let maxlen = if miri { 1 } else if ctx.thorough() { 3 } else { 2 };
+    let maxlen = if miri { 1 } else if ctx.thorough() && !ctx.light { 3 } else { 2 };
     let mut id = 0u64;
     for len in 0..=maxlen {
         let total: u64 = 1 << (8 * len);
@@ -360,7 +360,7 @@ pub fn run_c16(ctx: &mut Ctx) {
         }
     }
     // exhaustive over the dense token alphabet
-    let dmax = if miri { 2 } else if ctx.thorough() { 7 } else { 6 };
+    let dmax = if miri { 2 } else if ctx.light { 4 } else if ctx.thorough() { 7 } else { 6 };
     for len in 3..=dmax {
         let total = (DENSE_ALPHABET.len() as u64).pow(len as u32);
         let chunks = 256.min(total);
@@ -639,7 +639,7 @@ fn gen_path(r: &mut Rng) -> Vec<u8> {
 pub fn run_c18(ctx: &mut Ctx) {
     let miri = ctx.miri;
     let mut id = 0u64;
-    let dmax = if miri { 2 } else if ctx.thorough() { 7 } else { 6 };
+    let dmax = if miri { 2 } else if ctx.light { 4 } else if ctx.thorough() { 7 } else { 6 };
     for len in 1..=dmax {
         let total = (DENSE_ALPHABET.len() as u64).pow(len as u32);
         let chunks = 256.min(total);
